@@ -268,7 +268,7 @@ def run_disk(case, ctx, res):
             data, exp, desc = made
             eol = EOLS[desc["eol"]].encode()
             pos = rng.choice(["start", "inside", "after", "after+snippet", "unparseable", "start+snippet", "after+snippet@boundary",
-                              "after+snippet@boundary", "inside-edge", "after-edge", "start+long", "start+long", "straddle+snippet", "straddle+snippet"])
+                              "after+snippet@boundary", "inside-edge", "after-edge", "start+long", "start+long", "straddle+snippet", "straddle+snippet", "start+char-across-window-end"])
             desc = dict(desc, pos=pos)
             filler_line = b"x = 'filler filler filler filler filler filler filler'" + eol
             if pos == "start":
@@ -329,6 +329,20 @@ def run_disk(case, ctx, res):
                 if rest:
                     lead += b"#" + b"q" * (rest - len(eol) - 1) + eol
                 blob = head + lead + data + b"# SPDX-SnippetEnd" + eol
+            elif pos == "start+char-across-window-end":
+                # no snippet marker: only the first 4096 bytes are looked at, and that cut falls inside a multi-byte character of
+                # the body; the tags at the top, non-ASCII values included, are read all the same
+                ch = rng.choice(["é", "名", "😀", "ß", "€"]).encode("utf-8")
+                d = rng.randint(1, len(ch) - 1)
+                want = 4096 - d - len(data)
+                if want < 8:
+                    blob = data
+                else:
+                    lead = filler_line * (want // len(filler_line))
+                    rest = want - len(lead)
+                    lead += b"#" + b"q" * (rest - 1) if rest else b""
+                    blob = data + lead + ch + b" tail" + eol + filler_line * 20
+                    assert blob[4096 - d:4096 - d + len(ch)] == ch
             elif pos == "start+long":
                 blob = data + filler_line * 120  # tags at the top of a file much longer than the window
             elif pos == "start+snippet":
